@@ -890,11 +890,18 @@ func (pc *PartitionContext) tryPlaceholderAllocate() *objects.AllocationResult {
 			zap.String("appID", result.Request.GetApplicationID()),
 			zap.String("allocationKey", result.Request.GetAllocationKey()),
 			zap.String("placeholder released allocationKey", placeholder.GetAllocationKey()))
+		// the application, or the placeholder, can have been removed by the RM since the application started the
+		// replacement: that removal released the placeholder, it must not be released a second time
+		app := pc.getApplication(result.Request.GetApplicationID())
+		if app == nil || !app.IsAllocationAssignedToApp(placeholder) {
+			log.Log(log.SchedPartition).Info("application or placeholder was removed while replacing the placeholder",
+				zap.String("appID", result.Request.GetApplicationID()),
+				zap.String("placeholder allocationKey", placeholder.GetAllocationKey()))
+			return nil
+		}
 		// the ask is allocated now: a reservation it made earlier must not stay behind
-		if app := pc.getApplication(result.Request.GetApplicationID()); app != nil {
-			if reservedNode := pc.GetNode(app.NodeReservedForAsk(result.Request.GetAllocationKey())); reservedNode != nil {
-				pc.unReserve(app, reservedNode, result.Request)
-			}
+		if reservedNode := pc.GetNode(app.NodeReservedForAsk(result.Request.GetAllocationKey())); reservedNode != nil {
+			pc.unReserve(app, reservedNode, result.Request)
 		}
 		// pass the release back to the RM via the cluster context
 		return result
